@@ -437,8 +437,14 @@ def normalize(got, want, runstate=None):
             if not _matches(a, b):
                 for q in ['"', "'"]:
                     if a.startswith(q) and a.endswith(q):
-                        if _matches(a[1:-1], b):
-                            return a[1:-1]
+                        inner = a[1:-1]
+                        if runstate['NORMALIZE_WHITESPACE']:
+                            # blanks exposed by removing the quotes are
+                            # insignificant like any other leading or
+                            # trailing blanks
+                            inner = inner.strip()
+                        if _matches(inner, b):
+                            return inner
             return a
         got = norm_repr(got, want, a_is_got=True)
         want = norm_repr(want, got, a_is_got=False)
